@@ -24,7 +24,7 @@ from .c08 import similarity
 from .grading import cfg_text
 
 
-def lattice_mesh(nx, ny, nz, point, displaced=None):
+def lattice_mesh(nx, ny, nz, point, displaced=None, merged=False):
     import classy_blocks as cb
 
     def pos(i, j, l):
@@ -38,7 +38,16 @@ def lattice_mesh(nx, ny, nz, point, displaced=None):
         for j in range(ny):
             for l in range(nz):
                 pts = [pos(i + c[0], j + c[1], l + c[2]) for c in hexref.XYZ]
-                mesh.add(cb.Loft(cb.Face(pts[:4]), cb.Face(pts[4:])))
+                op = cb.Loft(cb.Face(pts[:4]), cb.Face(pts[4:]))
+                if merged and nx >= 2:
+                    # the plane between the first two columns of cells is a face-merged pair: duplicated vertices
+                    if i == 0:
+                        op.set_patch("right", "iface_master")
+                    elif i == 1:
+                        op.set_patch("left", "iface_slave")
+                mesh.add(op)
+    if merged and nx >= 2:
+        mesh.merge_patches("iface_master", "iface_slave")
     mesh.assemble()
     return mesh
 
@@ -76,6 +85,36 @@ def finders(ctx: Ctx, queries: List[dict], dims, rng: random.Random) -> None:
             kind = "missed" if want - got_l else "extra"
             ctx.violation(f"finder:{q['kind']}:{kind}", f"{q['kind']} query returned {len(got_l)} vertices, exact set has {len(want)}",
                           {"query": {k: q[k] for k in ("kind", "c", "r22", "n")}, "missed": sorted(want - got_l), "extra": sorted(got_l - want)})
+    # the same queries on the mesh whose first two columns are joined by a face-merged patch pair (Find.tla: twice)
+    if nx >= 2:
+        mm = lattice_mesh(nx, ny, nz, point, merged=True)
+        where = {}
+        for v in mm.vertices:
+            key = min(((vdist(v.position, point([2 * i, 2 * j, 2 * l])), (2 * i, 2 * j, 2 * l)) for i in range(nx + 1) for j in range(ny + 1) for l in range(nz + 1)))[1]
+            where[v.index] = key
+        mfinder = cb.GeometricFinder(mm)
+        exact = [{"kind": "sphere", "c": list(p), "r22": 0, "n": [0, 0, 0], "found": [list(p)], "twice": [list(p)] if p[0] == 2 else [], "exact": True}
+                 for p in sorted(set(where.values()))]
+        for q in rng.sample(queries, min(60, len(queries))) + rng.sample(exact, min(12, len(exact))):
+            try:
+                if q.get("exact"):
+                    got = mfinder.find_in_sphere(point(q["c"]))          # default radius: "the vertex at this position"
+                elif q["kind"] == "sphere":
+                    got = mfinder.find_in_sphere(point(q["c"]), scale * math.sqrt(q["r22"] / 2.0))
+                else:
+                    got = mfinder.find_on_plane(point(q["c"]), vmul(vector(q["n"]), rng.uniform(0.3, 4.0)))
+            except Exception as err:  # pylint: disable=broad-except
+                ctx.violation(f"finder-raises:merged:{q['kind']}:{type(err).__name__}", str(err), {"query": q["c"]})
+                continue
+            ctx.evaluated()
+            twice = {tuple(v) for v in q["twice"]}
+            want_multi = sorted([tuple(v) for v in q["found"]] + list(twice))
+            got_multi = sorted(where[v.index] for v in got)
+            if got_multi != want_multi:
+                kind = "exact-position" if q.get("exact") else q["kind"]
+                ctx.violation(f"finder:merged:{kind}:{'missed' if len(got_multi) < len(want_multi) else 'extra'}",
+                              f"on a mesh with a merged patch pair the {kind} query returned {len(got_multi)} vertices, "
+                              f"{len(want_multi)} lie there (both copies of every interface point)", {"query": q["c"], "r22": q["r22"], "n": q["n"]})
     # near-tolerance twins for the plane finder
     planes = [q for q in queries if q["kind"] == "plane" and q["found"]]
     for q in rng.sample(planes, min(6, len(planes))):
